@@ -96,7 +96,7 @@ def bases(tier):
 
     vals = []
     ov = corpus.object_values()
-    pick = range(len(ov)) if tier == "thorough" else [1, 2, 3, 6, 8, 10, 12, 14, 15, 18, 23, 26, 32]
+    pick = range(len(ov))
     for i in pick:
         vals.append((f"obj[{i}]", ov[i]))
     vals += [("noted", [o.Noted(1), o.Noted(2), "tail"]), ("noted-shared", (o.Noted(7), [o.Noted(8)])),
